@@ -141,7 +141,7 @@ def element_outputs(prog, F, inline=None):
 
 
 def element_map(prog, F, inline=None):
-    """How a function F(collection, ..) -> Vec maps elements: {"pairs": [(value term, is_elem)], "coll": collection term,
+    """How a function F(collection, ..) -> Vec maps elements: {"pairs": [(value term, is_elem, path, push event or None)], "colls": collection term,
     "err": reason or None}.  `is_elem(t)` tells whether term t is the element being processed (the loop variable of
     `for x in coll { out.push(f(x)) }`, or the closure parameter of `coll.into_iter().map(|x| f(x)).collect()`);
     only forward, complete iterations over one collection are accepted."""
@@ -158,16 +158,18 @@ def element_map(prog, F, inline=None):
                         colls.add(r[1])
                         return True
                     return False
-                pairs.append((strip(e["args"][1]), is_elem))
+                pairs.append((strip(e["args"][1]), is_elem, p, e))
     if pairs:
         return {"pairs": pairs, "colls": colls, "err": None, "form": "loop"}
-    rets = [strip(p.ret) for p in ps if p.end == "return"]
-    if len(rets) != 1:
-        return {"pairs": [], "colls": colls, "err": "no push and %d returning paths" % len(rets)}
-    r = rets[0]
-    if not (r[0] == "call" and r[1].endswith("::collect") and r[2]):
-        return {"pairs": [], "colls": colls, "err": "result is %s" % show(r)[:80]}
-    x = strip(r[2][0])
+    # `.. .map(f).collect()` evaluated somewhere in the function (returned, or kept in a local)
+    cols = {}
+    for p in ps:
+        for e in p.calls():
+            if e["callee"].endswith("::collect") and e["args"]:
+                cols[strip(e["args"][0])] = e
+    if len(cols) != 1:
+        return {"pairs": [], "colls": colls, "err": "no push and %d collect() calls" % len(cols)}
+    x = list(cols)[0]
     if not (x[0] == "call" and x[1].endswith("::map") and len(x[2]) == 2):
         return {"pairs": [], "colls": colls, "err": "collects %s" % show(x)[:80]}
     lay = iters.layout(x[2][0])
@@ -181,5 +183,5 @@ def element_map(prog, F, inline=None):
     for p in Walker(cb, max_visits=2, inline=inline).paths(init_env={1: clo}):
         if p.end != "return":
             continue
-        pairs.append((strip(p.ret), lambda t: strip(t)[0] == "param" and strip(t)[1] == 2))
+        pairs.append((strip(p.ret), lambda t: strip(t)[0] == "param" and strip(t)[1] == 2, p, None))
     return {"pairs": pairs, "colls": colls, "err": None, "form": "map"}
